@@ -406,4 +406,266 @@ theorem not_alive {g : Graph} {s : State} (h : ¬ Alive g s) :
       | bounce => rw [hpc] at hov; cases hov
       | test n ph dir uid tag wait => rw [hpc] at hov; cases hov
 
+/-! ## runs with a virtual clock
+
+The scheduler of the code is the `asyncio` event loop: a suspended worker is resumed when its sleep (back-off sleep, test
+execution, result-wait sleep) has elapsed.  `Timed g q T wake s steps`: `wake v` is the virtual time at which worker `v`
+is due; each entry of the run carries the duration `d` of the suspension the step ENDS in; the worker that is resumed is
+not over and is due first among the workers that are not over; a step that ends in the back-off sleep sleeps at least `q`;
+a step that ends inside a test (start of a test, tick of the result wait) is resumed at most `T` later. -/
+
+abbrev TStepN := StepN × Nat
+
+def isBounce : Pc → Bool
+  | .bounce => true
+  | _ => false
+
+/-- the due times after worker `w` went to sleep for `d` -/
+def wakeAfter (wake : Nat → Nat) (w d : Nat) : Nat → Nat := fun v => if v = w then wake w + d else wake v
+
+/-- **a run with a virtual clock** (event-driven scheduler) -/
+def Timed (g : Graph) (q T : Nat) : (Nat → Nat) → State → List TStepN → Prop
+  | _, _, [] => True
+  | wake, s, x :: r =>
+    (isOver (s.wd x.1.1).pc = false ∧
+      (∀ v, v < g.workers.length → isOver (s.wd v).pc = false → wake x.1.1 ≤ wake v) ∧
+      (isBounce ((stepN g s x.1).wd x.1.1).pc = true → q ≤ x.2) ∧
+      (((stepN g s x.1).wd x.1.1).pc.isTest = true → x.2 ≤ T)) ∧
+    Timed g q T (wakeAfter wake x.1.1 x.2) (stepN g s x.1) r
+
+def decTimed (g : Graph) (q T : Nat) : (wake : Nat → Nat) → (s : State) → (steps : List TStepN) →
+    Decidable (Timed g q T wake s steps)
+  | _, _, [] => isTrue trivial
+  | wake, s, x :: r =>
+    haveI := decTimed g q T (wakeAfter wake x.1.1 x.2) (stepN g s x.1) r
+    (inferInstance : Decidable ((isOver (s.wd x.1.1).pc = false ∧
+      (∀ v, v < g.workers.length → isOver (s.wd v).pc = false → wake x.1.1 ≤ wake v) ∧
+      (isBounce ((stepN g s x.1).wd x.1.1).pc = true → q ≤ x.2) ∧
+      (((stepN g s x.1).wd x.1.1).pc.isTest = true → x.2 ≤ T)) ∧
+      Timed g q T (wakeAfter wake x.1.1 x.2) (stepN g s x.1) r))
+
+instance (g : Graph) (q T : Nat) (wake : Nat → Nat) (s : State) (steps : List TStepN) :
+    Decidable (Timed g q T wake s steps) := decTimed g q T wake s steps
+
+theorem timed_take (g : Graph) (q T k : Nat) (steps : List TStepN) (wake : Nat → Nat) (s : State)
+    (h : Timed g q T wake s steps) : Timed g q T wake s (steps.take k) := by
+  induction k generalizing wake s steps with
+  | zero => rw [List.take_zero]; trivial
+  | succ k ih =>
+    cases steps with
+    | nil => trivial
+    | cons x r => rw [List.take_succ_cons]; exact ⟨h.1, ih r _ _ h.2⟩
+
+/-- every worker inside a test is due at most `T` after every worker that is not over -/
+def Due (g : Graph) (T : Nat) (wake : Nat → Nat) (s : State) : Prop :=
+  ∀ v u, v < g.workers.length → u < g.workers.length → (s.wd v).pc.isTest = true → isOver (s.wd u).pc = false →
+    wake v ≤ wake u + T
+
+theorem due_step {g : Graph} {ncls : Nat} (st : StaticN g ncls) {store : List (String × List (String × String))}
+    (q T : Nat) (wake : Nat → Nat) {s : State} (h : GInvN g ncls store s) (x : TStepN) (r : List TStepN)
+    (ok : RunOK g s ((x :: r).map (·.1))) (ht : Timed g q T wake s (x :: r)) (hd : Due g T wake s) :
+    Due g T (wakeAfter wake x.1.1 x.2) (stepN g s x.1) := by
+  obtain ⟨⟨hno, hmin, _, hT⟩, _⟩ := ht
+  rw [List.map_cons] at ok
+  intro v u hv hu htv hnu
+  unfold wakeAfter
+  by_cases e1 : v = x.1.1
+  · subst e1
+    simp only [if_true]
+    have hd' := hT htv
+    by_cases e2 : u = x.1.1
+    · rw [if_pos e2]; omega
+    · rw [if_neg e2]
+      rw [stepN_other st h x.1 _ ok u e2] at hnu
+      have := hmin u hu hnu
+      omega
+  · rw [if_neg e1]
+    rw [stepN_other st h x.1 _ ok v e1] at htv
+    by_cases e2 : u = x.1.1
+    · rw [if_pos e2]
+      have := hd v x.1.1 hv ok.1.1 htv hno
+      omega
+    · rw [if_neg e2]
+      rw [stepN_other st h x.1 _ ok u e2] at hnu
+      exact hd v u hv hu htv hnu
+
+/-- how many more back-off sleeps of at least `q` worker `w` can take before the worker `v` is due first -/
+def cap (q : Nat) (wake : Nat → Nat) (s : State) (v w : Nat) : Nat :=
+  if isOver (s.wd w).pc then 0 else (wake v + q - wake w) / q
+
+def phiT (g : Graph) (q : Nat) (wake : Nat → Nat) (s : State) (v : Nat) : Nat :=
+  ((List.range g.workers.length).map (cap q wake s v)).sum
+
+theorem sum_map_lt_of (l : List Nat) (hl : l.Nodup) (n : Nat) (hn : n ∈ l) (f f' : Nat → Nat) (h1 : f' n + 1 ≤ f n)
+    (h2 : ∀ j ∈ l, j ≠ n → f' j ≤ f j) : (l.map f').sum + 1 ≤ (l.map f).sum := by
+  induction l with
+  | nil => cases hn
+  | cons a r ih =>
+    rw [List.nodup_cons] at hl
+    simp only [List.map_cons, List.sum_cons]
+    by_cases ha : a = n
+    · subst ha
+      have := sum_map_le r f' f (fun j hj => h2 j (List.mem_cons_of_mem _ hj) (fun e => hl.1 (e ▸ hj)))
+      omega
+    · have hn' : n ∈ r := by
+        rcases List.mem_cons.mp hn with e | e
+        · exact absurd e.symm ha
+        · exact e
+      have := ih hl.2 hn' (fun j hj => h2 j (List.mem_cons_of_mem _ hj))
+      have := h2 a List.mem_cons_self ha
+      omega
+
+theorem cap_le {g : Graph} {q T : Nat} (hq : 0 < q) {wake : Nat → Nat} {s : State} (hd : Due g T wake s) (v w : Nat)
+    (hv : v < g.workers.length) (hw : w < g.workers.length) (htv : (s.wd v).pc.isTest = true) :
+    cap q wake s v w ≤ T / q + 1 := by
+  unfold cap
+  cases hov : isOver (s.wd w).pc with
+  | true => simp
+  | false =>
+    simp only [Bool.false_eq_true, if_false]
+    have := hd v w hv hw htv hov
+    rw [← Nat.add_div_right T hq]
+    exact Nat.div_le_div_right (by omega)
+
+theorem phiT_le {g : Graph} {q T : Nat} (hq : 0 < q) {wake : Nat → Nat} {s : State} (hd : Due g T wake s) (v : Nat)
+    (hv : v < g.workers.length) (htv : (s.wd v).pc.isTest = true) :
+    phiT g q wake s v ≤ g.workers.length * (T / q + 1) := by
+  have := sum_map_const_le (List.range g.workers.length) (cap q wake s v) (T / q + 1)
+    (fun w hw => cap_le hq hd v w hv (List.mem_range.mp hw) htv)
+  rw [List.length_range] at this
+  unfold phiT
+  rw [Nat.mul_comm]
+  exact this
+
+/-- **a stretch of back-off steps is at most as long as the sleeps that fit before a running test is due**: while worker
+`v` is inside a test, every unproductive step is a back-off sleep of a worker that is due before `v`, and lowers `phiT` -/
+theorem backoff_stretch_le {g : Graph} {ncls : Nat} (st : StaticN g ncls)
+    {store : List (String × List (String × String))} (q T : Nat) (hq : 0 < q) (steps : List TStepN) (wake : Nat → Nat)
+    (s : State) (h : GInvN g ncls store s) (ok : RunOK g s (steps.map (·.1))) (ht : Timed g q T wake s steps) (v : Nat)
+    (hv : v < g.workers.length) (htv : (s.wd v).pc.isTest = true)
+    (hun : productiveSteps g s (steps.map (·.1)) = 0) : steps.length ≤ phiT g q wake s v := by
+  induction steps generalizing wake s with
+  | nil => exact Nat.zero_le _
+  | cons x r ih =>
+    rw [List.map_cons] at ok hun
+    rw [productiveSteps_cons] at hun
+    obtain ⟨⟨hno, hmin, hB, _⟩, ht'⟩ := ht
+    have hvw : v ≠ x.1.1 := by
+      intro e
+      subst e
+      rw [productive_of_isTest htv] at hun
+      simp at hun
+    have hp : productive (s.wd x.1.1).pc ((stepN g s x.1).wd x.1.1).pc = false := by
+      cases hpp : productive (s.wd x.1.1).pc ((stepN g s x.1).wd x.1.1).pc with
+      | false => rfl
+      | true => rw [hpp] at hun; simp at hun
+    have hb : ((stepN g s x.1).wd x.1.1).pc = .bounce := by
+      rcases unproductive_step g s x.1.1 x.1.2.1 x.1.2.2 hp with ⟨h1, _⟩ | ⟨_, h2⟩
+      · rw [h1] at hno; cases hno
+      · exact h2
+    have hqd : q ≤ x.2 := hB (by rw [hb]; rfl)
+    have ev := stepN_other st h x.1 _ ok v hvw
+    have h1 := ginvN_stepN st h x.1 _ ok
+    have r1 := ih _ _ h1 ok.2 ht' (by rw [ev]; exact htv) (by omega)
+    have hdec : phiT g q (wakeAfter wake x.1.1 x.2) (stepN g s x.1) v + 1 ≤ phiT g q wake s v := by
+      unfold phiT
+      refine sum_map_lt_of _ List.nodup_range x.1.1 (List.mem_range.mpr ok.1.1) _ _ ?_ ?_
+      · -- the summand of the sleeping worker
+        have hle := hmin v hv (isOver_of_isTest htv)
+        unfold cap
+        rw [hno, hb]
+        simp only [isOver, Bool.false_eq_true, if_false]
+        unfold wakeAfter
+        rw [if_neg hvw, if_pos rfl]
+        have e : wake v + q - wake x.1.1 = (wake v - wake x.1.1) + q := by omega
+        rw [e, Nat.add_div_right _ hq]
+        have : (wake v + q - (wake x.1.1 + x.2)) / q ≤ (wake v - wake x.1.1) / q := Nat.div_le_div_right (by omega)
+        omega
+      · intro u _ hu
+        unfold cap
+        rw [stepN_other st h x.1 _ ok u hu]
+        unfold wakeAfter
+        rw [if_neg hvw, if_neg hu]
+        exact Nat.le_refl _
+    simp only [List.length_cons]
+    omega
+
+/-- a step of a worker that is not over, while nobody is inside a test and nobody is dead, is productive -/
+theorem quiet_step_productive {g : Graph} {ncls : Nat} (st : StaticN g ncls)
+    {store : List (String × List (String × String))} {s : State} (h : GInvN g ncls store s) (a : StepN) (r : List StepN)
+    (ok : RunOK g s (a :: r)) (hno : isOver (s.wd a.1).pc = false)
+    (hnt : ¬ ∃ v, v < g.workers.length ∧ (s.wd v).pc.isTest = true)
+    (hnf : ∀ v, v < g.workers.length → (s.wd v).pc ≠ .failed) :
+    productive (s.wd a.1).pc ((stepN g s a).wd a.1).pc = true := by
+  have hsym := edgeSymB_sound st.sym
+  have hp := h.reachF.pinv hsym
+  have hq : Quiet a.1 s := by
+    intro v _
+    by_cases hvl : v < g.workers.length
+    · refine ⟨?_, hnf v hvl⟩
+      cases hpc : (s.wd v).pc with
+      | test n ph dir uid tag wait => exact absurd ⟨v, hvl, by rw [hpc]; rfl⟩ hnt
+      | _ => rfl
+    · rw [wd_default_of_ge s v (by rw [hp.wlen]; exact hvl)]
+      exact ⟨rfl, by simp⟩
+  have hf0 : 0 < a.2.2 := Nat.lt_of_lt_of_le (bound_pos g) ok.1.2.1
+  obtain ⟨x1, _⟩ := resume_quiet g hsym s a.1 a.2.1 a.2.2 hf0 ok.1.1 hp hq
+  exact productive_of_not_bounce hno x1
+
+/-- **at most `|workers|·(T/q + 1)` consecutive back-off steps**: a longer stretch of a timed run, taken from a state where
+nobody is dead, contains a productive step -/
+theorem timed_window_productive {g : Graph} {ncls : Nat} (st : StaticN g ncls)
+    {store : List (String × List (String × String))} (q T : Nat) (hq : 0 < q) (win : List TStepN) (wake : Nat → Nat)
+    (s : State) (h : GInvN g ncls store s) (ok : RunOK g s (win.map (·.1))) (ht : Timed g q T wake s win)
+    (hd : Due g T wake s) (hnf : ∀ v, v < g.workers.length → (s.wd v).pc ≠ .failed)
+    (hlen : g.workers.length * (T / q + 1) + 1 ≤ win.length) : 1 ≤ productiveSteps g s (win.map (·.1)) := by
+  cases hz : productiveSteps g s (win.map (·.1)) with
+  | succ k => omega
+  | zero =>
+    exfalso
+    by_cases hnt : ∃ v, v < g.workers.length ∧ (s.wd v).pc.isTest = true
+    · obtain ⟨v, hv, htv⟩ := hnt
+      have a := backoff_stretch_le st q T hq win wake s h ok ht v hv htv hz
+      have b := phiT_le hq hd v hv htv
+      omega
+    · cases win with
+      | nil => simp at hlen
+      | cons x r =>
+        rw [List.map_cons] at ok hz
+        rw [productiveSteps_cons, quiet_step_productive st h x.1 _ ok ht.1.1 hnt hnf] at hz
+        simp at hz
+
+/-- a timed run is lively with `K = |workers|·(T/q + 1) + 1` -/
+theorem timed_lively {g : Graph} {ncls : Nat} (st : StaticN g ncls) {store : List (String × List (String × String))}
+    (q T : Nat) (hq : 0 < q) (steps : List TStepN) (wake : Nat → Nat) (s : State) (h : GInvN g ncls store s)
+    (ok : RunOK g s (steps.map (·.1))) (ht : Timed g q T wake s steps) (hd : Due g T wake s) :
+    Lively g (g.workers.length * (T / q + 1) + 1) s (steps.map (·.1)) := by
+  induction steps generalizing wake s with
+  | nil => trivial
+  | cons x r ih =>
+    have hd' := due_step st q T wake h x r ok ht hd
+    rw [List.map_cons] at ok ⊢
+    refine ⟨fun hKl ha => ?_, ih _ _ (ginvN_stepN st h x.1 _ ok) ok.2 ht.2 hd'⟩
+    rw [← List.map_cons (f := fun y : TStepN => y.1), ← List.map_take] at ha ⊢
+    have okw : RunOK g s (((x :: r).take (g.workers.length * (T / q + 1) + 1)).map (·.1)) := by
+      rw [List.map_take]; exact runOK_take g _ _ s ok
+    have ha0 := alive_of_run st _ s h okw ha
+    refine timed_window_productive st q T hq _ wake s h okw (timed_take g q T _ (x :: r) wake s ht) hd ha0.2 ?_
+    rw [List.length_take]
+    simp only [List.length_cons, List.length_map] at hKl ⊢
+    omega
+
+/-- **a timed run is over after `(24·resultBound g + |workers| + 1)·(|workers|·(T/q + 1) + 1)` steps** -/
+theorem timed_run_over {g : Graph} {ncls : Nat} (st : StaticN g ncls) (hnr : noRootsB g = true) (hcl : classesOKB g = true)
+    (store : List (String × List (String × String))) (q T : Nat) (hq : 0 < q) (wake : Nat → Nat) (steps : List TStepN)
+    (ok : RunOK g (initState g ncls store []) (steps.map (·.1)))
+    (ht : Timed g q T wake (initState g ncls store []) steps)
+    (hlen : (24 * resultBound g + g.workers.length + 1) * (g.workers.length * (T / q + 1) + 1) ≤ steps.length) :
+    ¬ Alive g (runStepsN g (initState g ncls store []) (steps.map (·.1))) := by
+  have hd : Due g T wake (initState g ncls store []) := by
+    intro v u _ _ htv _
+    rw [init_pc] at htv; cases htv
+  exact lively_run_over st hnr hcl store _ (Nat.succ_pos _) _ ok
+    (timed_lively st q T hq steps wake _ (ginvN_init g ncls store) ok ht hd) (by rw [List.length_map]; exact hlen)
+
 end I2N.Trav.Fair
